@@ -115,14 +115,16 @@ def to_hex(spec: dict) -> dict:
     return {"n": spec["n"], "k": spec["k"],
             "minima": [([float(x).hex() for x in c], float(e).hex()) for c, e in spec["minima"]],
             "ts": [(u, v, [float(x).hex() for x in c], float(e).hex()) for u, v, c, e in spec["ts"]],
-            "hist": [list(p) for p in spec["hist"]], "edits": [list(o) for o in spec.get("edits", [])]}
+            "hist": [list(p) for p in spec["hist"]], "edits": [list(o) for o in spec.get("edits", [])],
+            "analyses": spec.get("analyses", 0)}
 
 
 def from_hex(d: dict) -> dict:
     return {"n": d["n"], "k": d["k"],
             "minima": [([float.fromhex(x) for x in c], float.fromhex(e)) for c, e in d["minima"]],
             "ts": [(u, v, [float.fromhex(x) for x in c], float.fromhex(e)) for u, v, c, e in d["ts"]],
-            "hist": [tuple(p) for p in d["hist"]], "edits": [tuple(o) for o in d.get("edits", [])]}
+            "hist": [tuple(p) for p in d["hist"]], "edits": [tuple(o) for o in d.get("edits", [])],
+            "analyses": d.get("analyses", 0)}
 
 
 def roundtrip(k, suffix: str, path: str):
@@ -450,6 +452,30 @@ def failed_read_run(spec_a: dict, spec_b: dict, missing: str, into_fresh: bool):
 # ----------------------------------------------------------------------------- direct predicates
 
 
+def look_at_landscape(k, seed: int) -> None:
+    """read-only analyses a script runs between sampling and saving (examples/…/restart_landscape plots the
+    disconnectivity graph after every round); all of them are pure functions of the network"""
+    from topsearch.analysis import batch_selection as bs, graph_properties as gp, roughness
+    from topsearch.plotting.disconnectivity import get_connectivity_graph
+    r = random.Random(seed)
+    es = [float(k.get_ts_energy(u, v)) for u, v in k.G.edges()] + [float(k.get_minimum_energy(i)) for i in range(k.n_minima)]
+    top, low = max(es), min(es)
+    for what in r.sample(["hierarchy", "batch", "height", "rough"], 3):
+        try:
+            if what == "hierarchy":
+                get_connectivity_graph(k, low + r.choice([0.3, 0.6, 1.05]) * (top - low + 1.0), low - 0.5, r.choice([1, 3, 7]))
+            elif what == "batch":
+                excl = sorted(r.sample(range(k.n_minima), r.randrange(0, max(1, k.n_minima))))
+                bs.select_batch(k, r.choice([1, 2, 3]), r.choice(["Barrier", "Topographical", "Monotonic", "Lowest"]),
+                                r.random() < 0.5, r.choice([0.05, 0.5]), excl)
+            elif what == "height":
+                gp.disconnected_height(k, 0, k.n_minima - 1, low + 0.5 * (top - low), top - low + 1.0)
+            else:
+                roughness.roughness_metric(k)
+        except Exception:  # noqa: BLE001
+            pass
+
+
 def predicate(spec: dict, suffix: str = ".p", path: str = "") -> tuple[str, str] | None:
     """the statement on the real code: dump, read into an empty network, compare"""
     cls = ("single-minimum" if spec["n"] == 1 else "single-ts" if len(spec["ts"]) == 1 else
@@ -472,6 +498,14 @@ def predicate(spec: dict, suffix: str = ".p", path: str = "") -> tuple[str, str]
     if spec.get("edits"):
         spec = dict(spec, n=k.n_minima, hist=[tuple(int(x) for x in r) for r in np.asarray(k.pairlist).reshape(-1, 2)],
                     ts=[(int(u), int(v), None, None) for u, v in k.G.edges()])
+    # what the network holds now is what has to come back — also when the script looks at the landscape (a zoomed
+    # disconnectivity hierarchy, a batch selection with excluded minima, a barrier height) before it saves it
+    expected_edges = {frozenset((int(u), int(v))) for u, v in k.G.edges()}
+    if spec.get("analyses") and k.n_minima >= 1:
+        try:
+            look_at_landscape(k, spec["analyses"])
+        except Exception:  # noqa: BLE001 - an analysis that does not apply to this network is not the point here
+            pass
     outcome, k2 = roundtrip(k, suffix, path)
     if outcome != "ok":
         return f"roundtrip:{cls}:raises", f"dump/read of a network with {spec['n']} minima, {len(spec['ts'])} " \
@@ -484,7 +518,7 @@ def predicate(spec: dict, suffix: str = ".p", path: str = "") -> tuple[str, str]
             return f"roundtrip:{cls}:coords", f"minimum {i}: coordinates {c2!r} were {k.get_minimum_coords(i)!r}"
         if abs(float(k2.get_minimum_energy(i)) - k.get_minimum_energy(i)) > 5.0000001e-6:
             return f"roundtrip:{cls}:energy", f"minimum {i}: energy {k2.get_minimum_energy(i)!r} was {k.get_minimum_energy(i)!r}"
-    e1 = {frozenset((int(u), int(v))) for u, v in k.G.edges()}
+    e1 = expected_edges
     e2 = {frozenset((int(u), int(v))) for u, v in k2.G.edges()}
     if e1 != e2 or k2.n_ts != k.n_ts or k2.n_ts != len(e2):
         return f"roundtrip:{cls}:ts-pairs", f"transition states on {sorted(map(sorted, e2))} (n_ts={k2.n_ts}), dumped " \
@@ -548,6 +582,8 @@ def predicates(ctx: Ctx) -> None:
                 sel.append([rng.randrange(n), rng.randrange(n)])             # possibly a pair without one
             rng.shuffle(sel)
             spec["edits"] = [("rmtss", sel)]
+        if rng.random() < 0.35 and "edits" not in spec:
+            spec["analyses"] = rng.randrange(1, 10**6)
         r = predicate(spec, suffix, path)
         ctx.stats.case({"stream": "predicate-random", "n": n, "m": len(edges), "k": spec["k"], "h": len(hist)}, True)
         if r:
